@@ -3,7 +3,7 @@
 Tie T: T8 (`_get_unsigned_dtype`), T8b (output-value ceiling / default dtype head of
 `_get_pixels_by_seg_frame`), T8c (LABELMAP need_remap / intermediate-dtype decision), T8d (BINARY/FRACTIONAL
 intermediate dtype and refusals), T8e (the LABELMAP remapping table, cell by cell), T8f (per-number checks of
-`get_pixels_by_source_frame`).
+`get_pixels_by_source_frame`), T8h (effect summaries — rebinding vs in-place — of the three functions a read runs through).
 Tie C: the read-side model (Model/SegRead.lean, Model/SegMeta.lean) is run on the *stored frames of the
 real object as pydicom sees them* (segment number, source reference, dimension index values, decoded
 pixels) and compared with what the five public read entry points return (L0); `_get_segment_remap_values`
@@ -20,9 +20,9 @@ from fractions import Fraction
 import numpy as np
 
 PROP = 'C02'
-TARGETS = ['T8', 'T8b', 'T8c', 'T8d', 'T8e', 'T8f']
+TARGETS = ['T8', 'T8b', 'T8c', 'T8d', 'T8e', 'T8f', 'T8h']
 LEAN_MODULES = ['HdVerif.Props.C02']
-MODEL_MODULES = ['HdVerif.Model.SegRead', 'HdVerif.Model.SegMeta']
+MODEL_MODULES = ['HdVerif.Model.SegRead', 'HdVerif.Model.SegMeta', 'HdVerif.Model.Effects']
 NAMESPACE = 'HdVerif.C02'
 DRIVER = 'Drivers/C02.lean'
 RULE = ('segmentation objects built with the real constructor from (source kind, type, segment numbers, mask, '
